@@ -132,9 +132,9 @@ impl<K: Eq + Hash + Clone + Send + Sync + 'static, V: Send + Sync + 'static, T>
     }
 
     pub fn insert(&self, key: K, value: V, updated: bool) {
-        if updated {
-            self.write_count(&key).fetch_add(1, Ordering::SeqCst);
-        }
+        // counted once the pinned entry is in place (see `write_counts`): a
+        // miss that remembers the new count finds the entry
+        let write_count = updated.then(|| self.write_count(&key));
 
         let old_value = self.tiny_lfu.entry(key, |e| {
             match e {
@@ -162,15 +162,15 @@ impl<K: Eq + Hash + Clone + Send + Sync + 'static, V: Send + Sync + 'static, T>
             }
         });
 
+        if let Some(write_count) = write_count {
+            write_count.fetch_add(1, Ordering::SeqCst);
+        }
+
         // drop the value outside entry lock
         drop(old_value);
     }
 
     pub fn remove(&self, key: &K, updated: bool) {
-        if updated {
-            self.write_count(key).fetch_add(1, Ordering::SeqCst);
-        }
-
         let old_value = self.tiny_lfu.entry(key.clone(), |x| match x {
             tiny_lfu::Entry::Vacant(vaccant_entry) => {
                 // if ran with updated=true, with must create a negative
@@ -204,6 +204,11 @@ impl<K: Eq + Hash + Clone + Send + Sync + 'static, V: Send + Sync + 'static, T>
                 }
             }
         });
+
+        // counted once the pinned entry is in place (see `write_counts`)
+        if updated {
+            self.write_count(key).fetch_add(1, Ordering::SeqCst);
+        }
 
         drop(old_value);
     }
